@@ -5,7 +5,7 @@ CONSTANTS
   GenKind = "multiset"
   MaxSide = 2
   Orders = {1, 2}
-  MaxViol = 1
+  MaxViol = 0
   OnlyBalanced = FALSE
   Inactive = FALSE
   AllowReverse = FALSE
